@@ -148,28 +148,44 @@ mod verif_c15 {
         p.cfg.width = width; p.cfg.height = height; p.cfg.xdec = xdec; p.cfg.ydec = ydec;
         p
     }
+    fn encode_primaries_match_label(w: usize, h: usize) {
+        let in_m: u8 = kani::any(); kani::assume(in_m < 15);
+        let mc = MC_ALL[in_m as usize];
+        kani::assume(matches!(mc, MC::BT709 | MC::BT470M | MC::BT470BG | MC::ST170M | MC::ST240M | MC::BT2020NonConstantLuminance | MC::YCgCo));
+        let c = YuvConfig { bit_depth: 8, subsampling_x: 0, subsampling_y: 0, full_range: false, matrix_coefficients: mc,
+            transfer_characteristics: TC::Linear, color_primaries: CP::Unspecified };
+        let o = Yuv::<u8>::try_from((LinearRgb::new(Vec::new(), w, h).unwrap(), c)).unwrap();
+        let label = o.config().color_primaries;
+        let used = unsafe { SEEN_OUT_PRIMARIES };
+        assert!(label != CP::Unspecified, "never reports Unspecified");
+        assert!(used == cp_idx(label), "the gamut stage converts to the primaries the output is labelled with, at every image size");
+        assert!(o.width() == w && o.height() == h, "dimensions preserved");
+    }
+    /// w x 0 images, every width 1..=1300: no loop iterations at all; a transposed size would be seen as (0, w) and hit the 480/488/576-line guesses
     #[kani::proof]
-    #[kani::unwind(602)]
+    #[kani::unwind(5)]
+    #[kani::stub(crate::yuv_rgb::color::transform_primaries, stub_transform_primaries)]
+    #[kani::stub(v_frame::plane::Plane::new, stub_plane_new0)]
+    #[kani::stub(yuvxyb_math::matrix::Matrix::invert, yuvxyb_math::matrix::verif_stub_invert)]
+    fn k_c15_encode_primaries_match_label_wx0() {
+        let in_w: usize = kani::any();
+        kani::assume(in_w >= 1 && in_w <= 1300);
+        encode_primaries_match_label(in_w, 0);
+        kani::cover!(in_w == 480, "width 480 explored");
+        kani::cover!(in_w == 1280, "width 1280 explored");
+    }
+    /// 0 x h images, every height 1..=600 (the 480/488/576-line guesses in the right orientation): 600 iterations of the row loop
+    #[kani::proof]
+    #[kani::unwind(5)]
     #[kani::stub(crate::yuv_rgb::color::transform_primaries, stub_transform_primaries)]
     #[kani::stub(v_frame::plane::Plane::new, stub_plane_new0)]
     #[kani::stub(yuvxyb_math::matrix::Matrix::invert, yuvxyb_math::matrix::verif_stub_invert)]
     fn k_c15_encode_primaries_match_label() {
         let in_h: usize = kani::any();
         kani::assume(in_h >= 1 && in_h <= 600);
-        let in_m: u8 = kani::any(); kani::assume(in_m < 15);
-        let mc = MC_ALL[in_m as usize];
-        kani::assume(matches!(mc, MC::BT709 | MC::BT470M | MC::BT470BG | MC::ST170M | MC::ST240M | MC::BT2020NonConstantLuminance | MC::YCgCo));
-        let c = YuvConfig { bit_depth: 8, subsampling_x: 0, subsampling_y: 0, full_range: false, matrix_coefficients: mc,
-            transfer_characteristics: TC::Linear, color_primaries: CP::Unspecified };
-        // 0 x h image: the heuristics see (width 0, height h); a transposed call would see (width h, height 0)
-        let o = Yuv::<u8>::try_from((LinearRgb::new(Vec::new(), 0, in_h).unwrap(), c)).unwrap();
-        let label = o.config().color_primaries;
-        let used = unsafe { SEEN_OUT_PRIMARIES };
-        assert!(label != CP::Unspecified, "never reports Unspecified");
-        assert!(used == cp_idx(label), "the gamut stage converts to the primaries the output is labelled with, at every image height");
-        assert!(o.width() == 0 && o.height() == in_h, "dimensions preserved");
-        kani::cover!(in_h == 480 && label == CP::ST170M, "480-line guess explored");
-        kani::cover!(in_h == 576 && label == CP::BT470BG, "576-line guess explored");
+        encode_primaries_match_label(0, in_h);
+        kani::cover!(in_h == 480, "480-line guess explored");
+        kani::cover!(in_h == 576, "576-line guess explored");
     }
     /// label == content where the size heuristic depends on the orientation: a 1x480 image (concrete pixels: the solver's job here is
     /// the symbolic execution of the real resolution logic at a real 480-line size, not a search over pixels)
@@ -283,10 +299,14 @@ def plan(tier, seed):
             hs.append(dict(name="k_c15_label_content_xyb_t2_p%d" % cp, what="labelx", timeout=2400, mem_gb=16, tcx=2,
                            obligation="XYB -> YUV with Unspecified fields: label == content [primaries index %d]" % cp, sym="as above, source XYB",
                            covers=["conversion with Unspecified fields succeeded"]))
-    hs.append(dict(name="k_c15_encode_primaries_match_label", what="label480", timeout=1500, mem_gb=16,
+    hs.append(dict(name="k_c15_encode_primaries_match_label_wx0", what="label480", timeout=900, mem_gb=12,
+                   obligation="linear RGB -> YUV with Unspecified primaries: the primaries handed to the gamut stage equal the primaries stored in the output, for every w x 0 image, w in 1..=1300 (stage-interface observation; a transposed size shows as a 480/488/576-line guess)",
+                   sym="image width: every value in 1..=1300; matrix: symbolic over the 7 standard ones; height 0", covers=["width 480 explored", "width 1280 explored"]))
+    if thorough:
+      hs.append(dict(name="k_c15_encode_primaries_match_label", what="label480", timeout=3000, mem_gb=16, unwind_rules=[(r"ypbpr_to_ycbcr", 602)],
                    obligation="linear RGB -> YUV with Unspecified primaries: the primaries handed to the gamut stage equal the primaries stored in the output, for every image height 1..600 (observed at the stage interface on a zero-column image, so no pixel work is needed)",
                    sym="image height: every value in 1..=600 (covers the 480/488/576 thresholds); matrix: symbolic over the 7 standard ones; width 0",
-                   covers=["480-line guess explored", "576-line guess explored"]))
+                     covers=["480-line guess explored", "576-line guess explored"]))
     if thorough:
       hs.append(dict(name="k_c15_label_content_1x480", what="label480", timeout=10800, mem_gb=24,
                    obligation="label == content on a 1x480 / 480x1 image (where the primaries guess depends on which dimension is the height): re-encoding under the stored config gives identical samples; guessed primaries follow the real orientation",
